@@ -49,3 +49,9 @@ Theorem C05_install_nofault : forall c k s func kd, enc_wf (c_enc c) -> alloc_wf
   0 <= e_patch_addr (c_enc c) func -> snd (install c k s func kd) <> RFault.
 Proof. exact install_nofault. Qed.
 Print Assumptions C05_install_nofault.
+
+(* the shape of the source the model's scope exit hard-codes, as found in the source now (regenerated on every run) *)
+From Inj Require Import SrcTieLife.
+Theorem C05_source_unwinding_shape : src_verifier_silent_when_unwinding && src_lock_dropped_last && src_lifo = true.
+Proof. exact src_unwinding_shape. Qed.
+Print Assumptions C05_source_unwinding_shape.
